@@ -21,6 +21,7 @@ Acts == { M(<<"+b", m>>) : m \in Masks \ {""} } \cup { M(<<"+e", m>>) : m \in {"
         \cup { St(c, "WHO", <<<<m>>>>) : c \in {A, C}, m \in {"a*a", "*a", "z??", "zo?", "?", "*!*@127.0.0.?", "a*a*a*a*a*a*b", "*ë"} }
         \cup { St(c, "WHOIS", <<<<m>>>>) : c \in {A, C}, m \in {"a*a", "zo?", "?", "*"} }
         \cup { St(c, "OPER", <<<<"god">>, <<"godpass">>>>) : c \in {A, B, C} }
+        \cup { St(B, "NICK", <<<<"abba">>>>), St(A, "WHO", <<<<"abba!*@*">>>>), St(A, "WHO", <<<<"a!*@*">>>>) }   \* the text masks are matched against follows a rename
         \cup { St(D, "NICK", <<<<"a">>>>), St(D, "NICK", <<<<"abba">>>>), St(D, "NICK", <<<<"aa">>>>), St(D, "USER", <<<<"reg1">>, <<"R">>>>) }
 Steps == Acts
 Init == InitWith(Cfg, Pre)
